@@ -365,6 +365,45 @@ def check_config(case):
                 bad('two-step-wrong', '%s add(add(t, %d), %d) observed %s, add(t, %d) observed %s, expected both %s' % (
                     tl, s, s, fmt(r2), 2 * s, fmt(r3), fmt(e)), op='two-step', sign=s, bday=eb)
 
+    # ---- an endpoint of drange spelt as a business-day bump off the other one: it is the CALENDAR's own bump (holidays and weekend included)
+    for b in days:
+        tb = ref.walk(b, 3)
+        eb_ = ref.adjust(b)
+        for kk in (1, 2, 3):
+            out.sub()
+            want = [DTS[j] for j in ref.between(tb[-kk], eb_)]
+            ok, got = impl(cal.drange, '-%db' % kk, DTS[b], '1b')
+            if not ok or got != want:
+                bad('drange-wrong', "drange('-%db', %s, '1b') expected %s observed %s" % (kk, fmt(DTS[b]), fmt(want), fmt(got)), op='drange-bump-start', a_bday=False, b_bday=ref.is_bday(b),
+                    single=len(want) == 1)
+            want = [DTS[j] for j in ref.between(eb_, tb[kk])]
+            ok, got = impl(cal.drange, DTS[b], '%db' % kk, '1b')
+            if not ok or got != want:
+                bad('drange-wrong', "drange(%s, '%db', '1b') expected %s observed %s" % (fmt(DTS[b]), kk, fmt(want), fmt(got)), op='drange-bump-end', a_bday=ref.is_bday(b), b_bday=False,
+                    single=len(want) == 1)
+    # ---- the same calendar data under ANOTHER default convention (a copy made after this one has answered): the copy answers with its own convention
+    for a2 in ADJS:
+        if a2 == adj:
+            continue
+        try:
+            c2 = cal(adj=a2)
+            c3 = Calendar(cal)
+            c3.adj = a2
+        except Exception as e:
+            bad('construct-raised', 'cal(adj=%r) / Calendar(cal) raised %s: %s' % (a2, type(e).__name__, e), copy=True)
+            continue
+        for i in days:
+            out.sub()
+            want = DTS[ref.adjust(i, a2)]
+            for cname, cc in (('cal(adj=%r)' % a2, c2), ('Calendar(cal) with .adj = %r' % a2, c3)):
+                ok, got = impl(cc.adjust, DTS[i])
+                ok2, got2 = impl(cc.add, DTS[i], 0)
+                if not ok or got != want or not ok2 or got2 != want:
+                    bad('adjust-wrong', 't=%s %s (a copy of a calendar with adj=%r that has already answered): adjust(t) = %s, add(t, 0) = %s, expected %s' % (
+                        fmt(DTS[i]), cname, adj, fmt(got), fmt(got2), fmt(want)), op='adjust', a=a2, rolled=False, copy=True)
+        ok, got = impl(cal.adjust, DTS[days[0]])
+        if not ok or got != DTS[ref.adjust(days[0])]:
+            bad('adjust-wrong', 'after copies with another convention were used, the original calendar adjusts %s to %s' % (fmt(DTS[days[0]]), fmt(got)), op='adjust', a='own', rolled=False, copy=True)
     # ---- drange over every pair of the window
     for a, b in itertools.combinations_with_replacement(days, 2):
         ea, eb_ = ref.adjust(a), ref.adjust(b)
